@@ -252,6 +252,10 @@ def gensalt_ra(chk, m, flavour):
         else:
             if frees:
                 bad("free-unguarded", "free() is not guarded by the worker's NULL result", frees[0][0])
+            else:
+                # crypt_gensalt_rn returns its buffer or NULL (checked above); a path that neither tests that result nor
+                # frees the block loses the block whenever the worker fails
+                bad("leak-untested", "the worker's result is passed on untested: when crypt_gensalt_rn fails the block from %s is neither freed nor returned" % M, I)
         chk.ok(R, "%s:path%d" % (flavour, n), sample=desc)
     return len(paths)
 
